@@ -432,7 +432,7 @@ def _agg_spec(rng: random.Random, name: str, maxlen: int = 8) -> dict:
     if name == "sorted":
         if cls in ("items", "inexact", "exact"):
             spec["srcs"] = [keys_seq(rng, maxlen)]
-            spec["fns"] = [rng.choice(KEYS + ["samenan", "selfunequal"])]
+            spec["fns"] = [rng.choice(KEYS + ["samenan", "selfunequal", "sameraiser"])]
         else:
             spec["raw"] = True
             spec["srcs"] = [raw_seq(rng, {"unorderable": RAW_UNORDERABLE, "nan": RAW_NAN}[cls], maxlen if rng.random() < 0.7 else 1)]
@@ -464,7 +464,7 @@ def _agg_spec(rng: random.Random, name: str, maxlen: int = 8) -> dict:
             # accident of the algorithm - heapq sorts when n >= len and uses a heap otherwise - not a result to match)
             spec["srcs"] = [keys_seq(rng, maxlen)]
             # (one shared key object that is not equal to itself IS decided: records tie by identity, first come wins)
-            spec["fns"] = [rng.choice(KEYS + ["samenan", "selfunequal"])]
+            spec["fns"] = [rng.choice(KEYS + ["samenan", "selfunequal", "sameraiser"])]
         else:
             # mixed types that make the comparison fail: the aggregation fails like its counterpart
             spec["raw"] = True
